@@ -71,8 +71,11 @@ def build_gnu(names, symoffset, nbuckets, bloom_size, bloom_shift, cls, le):
             + struct.pack(o + '%dI' % nbuckets, *buckets) + struct.pack(o + '%dI' % len(chain), *chain))
 
 
-def gnu_order(names, symoffset, nbuckets):
-    """Stable reorder of names[symoffset:] by bucket."""
+def gnu_order(names, symoffset, nbuckets, descending=False):
+    """Stable reorder of names[symoffset:] by bucket.  The format needs the symbols of one bucket to be contiguous; linkers lay the groups out in
+    ascending bucket order, `descending` lays them out the other way round (lookups work the same, the highest chain start is then bucket 0's)."""
     head = list(names[:symoffset])
-    tail = sorted(names[symoffset:], key=lambda s: gnu_hash(s) % nbuckets)
+    tail = sorted(names[symoffset:], key=lambda s: gnu_hash(s) % nbuckets, reverse=False)
+    if descending:
+        tail = sorted(tail, key=lambda s: -(gnu_hash(s) % nbuckets))
     return head + tail
